@@ -141,11 +141,8 @@ MatchMark == "<match>"
 IsMatchFrame(f) == MatchMark \in DOMAIN f
 OwnTop(fr) == SetMin({j \in 1..Len(fr) : ~IsMatchFrame(fr[j])})
 Captured(fr, name) == LET i == FrameOf(fr, name) IN i # 0 /\ i > OwnTop(fr) /\ i # Len(fr)
-\* names bound by a pattern alias the cells of the subject; the machine binds by value, so a run that
-\* assigns to such a name, or changes a container whose elements are bound, leaves the defined core
-BoundName(fr, name) == LET i == FrameOf(fr, name) IN i # 0 /\ IsMatchFrame(fr[i]) /\ name \in fr[i][MatchMark].names
-AliasHitIds(fr, id) == id \in UNION {fr[j]["<match>"].src : j \in {k \in 1..Len(fr) : "<match>" \in DOMAIN fr[k]}}
-AliasedIds(fr) == UNION {fr[j][MatchMark].src : j \in {k \in 1..Len(fr) : IsMatchFrame(fr[k])}}
+\* names bound by a pattern hold the matched values: scalars copied, arrays and objects shared (as for
+\* parameters and loop variables); assigning to such a name changes nothing else
 WithVar(f, name, v) == [x \in (DOMAIN f) \cup {name} |-> IF x = name THEN v ELSE f[x]]
 \* reading a name that exists nowhere creates it, unset, in the current frame
 Touch(fr, name) == IF FrameOf(fr, name) = 0 THEN [fr EXCEPT ![1] = WithVar(fr[1], name, VUnset)] ELSE fr
@@ -216,7 +213,6 @@ BindDollar(s, x) ==
   ELSE [s EXCEPT !.dollar = InScalar(x)]
 
 BaseOf(s, n) == IF n = "$" THEN s.dollar ELSE Lookup(s.frames, n)
-AliasHit(s, n) == LET b == BaseOf(s, n) IN b.t = "ref" /\ AliasHitIds(s.frames, b.id)
 SetBase(s, n, v) == IF n = "$" THEN [s EXCEPT !.dollar = v] ELSE [s EXCEPT !.frames = Assign(s.frames, n, v)]
 \* an unset variable that is indexed becomes an empty array (numeric key) or an empty object
 Materialise(s, n, key) ==
@@ -282,24 +278,24 @@ JoinSp(ss) == IF ss = <<>> THEN "" ELSE IF Len(ss) = 1 THEN ss[1] ELSE ss[1] \o 
 \* --- match (C19): patterns are a literal (equal by the comparison of 3.4), a name (matches anything and
 \* binds it), or an array pattern (an array of exactly that length whose elements match, binding recursively).
 \* Alternatives and cases are tried in order; a comparison that fails (a container against a scalar
-\* literal) is a fault.  Results: [k |-> "yes", b |-> <<name, value>> pairs, src |-> container ids] |
+\* literal) is a fault.  Results: [k |-> "yes", b |-> <<name, value>> pairs] |
 \* [k |-> "no"] | [k |-> "err"] | [k |-> "open"]
 LitVal(x) == IF x.k = "num" THEN VNum(x.v) ELSE IF x.k = "str" THEN VStr(x.v) ELSE IF x.k = "bool" THEN VBool(x.v) ELSE VNull
-RECURSIVE PatMatch(_, _, _), PatItems(_, _, _, _, _, _)
+RECURSIVE PatMatch(_, _, _), PatItems(_, _, _, _, _)
 PatMatch(h, v, p) ==
-  CASE p.k = "pid" -> [k |-> "yes", b |-> <<<<p.n, v>>>>, src |-> {}]
+  CASE p.k = "pid" -> [k |-> "yes", b |-> <<<<p.n, v>>>>]
     [] p.k = "plit" ->
          LET r == IF NumOpen(v) THEN ROpen ELSE Compare("==", v, LitVal(p.v)) IN
          IF r.k = "open" THEN [k |-> "open"] ELSE IF r.k = "err" THEN [k |-> "err"]
-         ELSE IF r.v.v THEN [k |-> "yes", b |-> <<>>, src |-> {}] ELSE [k |-> "no"]
+         ELSE IF r.v.v THEN [k |-> "yes", b |-> <<>>] ELSE [k |-> "no"]
     [] p.k = "parr" ->
          IF v.t # "ref" THEN [k |-> "no"]
          ELSE IF h[v.id].t # "arr" \/ Len(h[v.id].items) # Len(p.items) THEN [k |-> "no"]
-         ELSE PatItems(h, h[v.id].items, p.items, 1, <<>>, {v.id})
-PatItems(h, items, pats, i, acc, src) ==
-  IF i > Len(pats) THEN [k |-> "yes", b |-> acc, src |-> src]
+         ELSE PatItems(h, h[v.id].items, p.items, 1, <<>>)
+PatItems(h, items, pats, i, acc) ==
+  IF i > Len(pats) THEN [k |-> "yes", b |-> acc]
   ELSE LET r == PatMatch(h, items[i], pats[i]) IN
-       IF r.k = "yes" THEN PatItems(h, items, pats, i + 1, acc \o r.b, src \cup r.src) ELSE r
+       IF r.k = "yes" THEN PatItems(h, items, pats, i + 1, acc \o r.b) ELSE r
 RECURSIVE AltMatch(_, _, _, _), CaseSel(_, _, _, _)
 AltMatch(h, v, pats, j) ==
   IF j > Len(pats) THEN [k |-> "no"]
@@ -308,13 +304,12 @@ CaseSel(h, v, cases, i) ==
   IF i > Len(cases) THEN [k |-> "none"]
   ELSE LET r == AltMatch(h, v, cases[i].pats, 1) IN
        IF r.k = "no" THEN CaseSel(h, v, cases, i + 1)
-       ELSE IF r.k = "yes" THEN [k |-> "yes", i |-> i, b |-> r.b, src |-> r.src] ELSE [k |-> r.k]
+       ELSE IF r.k = "yes" THEN [k |-> "yes", i |-> i, b |-> r.b] ELSE [k |-> r.k]
 \* the frame of the selected arm: the bound names (a later binding of the same name wins) and the mark
-MatchFrame(b, src) ==
+MatchFrame(b) ==
   LET names == {b[i][1] : i \in 1..Len(b)} IN
   [x \in names \cup {MatchMark} |->
-     IF x = MatchMark THEN [names |-> names, src |-> IF names = {} THEN {} ELSE src]
-     ELSE b[SetMax({i \in 1..Len(b) : b[i][1] = x})][2]]
+     IF x = MatchMark THEN VNull ELSE b[SetMax({i \in 1..Len(b) : b[i][1] = x})][2]]
 
 \* --- one step with no signal pending: dispatch on the top of the control stack
 StepExpr(s, e, rest) ==
@@ -357,7 +352,7 @@ StepExpr(s, e, rest) ==
              new == IF e.op = "++" THEN old + 1 ELSE old - 1
          IN Mark([s EXCEPT !.ctl = rest, !.frames = Assign(s.frames, e.n, VNum(new)),
                            !.vs = <<VNum(IF e.post THEN old ELSE new)>> \o s.vs],
-                 Captured(s.frames, e.n) \/ BoundName(s.frames, e.n) \/ ~InRange(new) \/ NumOpen(Lookup(s.frames, e.n)), "inc " \o e.n)
+                 Captured(s.frames, e.n) \/ ~InRange(new) \/ NumOpen(Lookup(s.frames, e.n)), "inc " \o e.n)
 
 \* for (v1[, v2] in n): the loop variables are found or created first, then the iterable is read;
 \* an array is iterated over its length at loop start, an object over its keys in key order
@@ -428,7 +423,6 @@ MethodCall(s, it, rest) ==
       ok(s2, v) == [s2 EXCEPT !.ctl = rest, !.vs = <<v>> \o vs0]
       err == Fault([s1 EXCEPT !.vs = vs0], rest)
   IN IF it.m \notin {"push", "pop", "length"} THEN Opened(s, "method " \o it.m)
-     ELSE IF it.m # "length" /\ AliasHit(s, it.n) THEN Opened(s, "aliased container")
      ELSE IF \E i \in 1..it.na : args[i].t = "unset" THEN Opened(s, "unset argument")
      ELSE IF b.t = "ref" THEN
         LET c == s1.heap[b.id] IN
@@ -462,7 +456,7 @@ StepOp(s, it, rest) ==
     [] it.t = "drop" -> [s EXCEPT !.ctl = rest, !.vs = Tail(s.vs)]
     [] it.t = "store" ->    \* the value of an assignment is the assigned value; scalars are copied
          Mark([s EXCEPT !.ctl = rest, !.frames = Assign(s.frames, it.n, s.vs[1])],
-              Captured(s.frames, it.n) \/ BoundName(s.frames, it.n) \/ s.vs[1].t = "unset", "store " \o it.n)
+              Captured(s.frames, it.n) \/ s.vs[1].t = "unset", "store " \o it.n)
     [] it.t = "print" ->
          LET args == TopN(s.vs, it.n) IN
          Mark([s EXCEPT !.ctl = rest, !.vs = DropN(s.vs, it.n),
@@ -495,7 +489,7 @@ StepOp(s, it, rest) ==
             ELSE IF r.k = "none" THEN [s EXCEPT !.ctl = rest, !.vs = <<VNull>> \o Tail(s.vs)]
             ELSE IF s.depth + 1 > CoreCallLimit THEN Fault([s EXCEPT !.vs = Tail(s.vs)], rest)
             ELSE LET c == it.cases[r.i] IN
-                 [s EXCEPT !.vs = Tail(s.vs), !.frames = <<MatchFrame(r.b, r.src)>> \o s.frames, !.depth = s.depth + 1,
+                 [s EXCEPT !.vs = Tail(s.vs), !.frames = <<MatchFrame(r.b)>> \o s.frames, !.depth = s.depth + 1,
                            !.ctl = (IF c.bk = "expr" THEN <<E(c.b), [t |-> "matchk", bk |-> "expr"]>>
                                     ELSE <<S(c.b), [t |-> "matchk", bk |-> "block"]>>) \o rest]
     [] it.t = "matchk" ->   \* the arm is done: an expression arm yields its value, a block arm null
@@ -543,7 +537,7 @@ StepOp(s, it, rest) ==
          LET r == IdxWrite(s, it.n, s.vs[2], s.vs[1]) IN
          IF s.vs[1].t = "unset" THEN Opened(s, "store unset")
          ELSE IF r.k = "ok" THEN Mark([r.s EXCEPT !.ctl = rest, !.vs = <<s.vs[1]>> \o DropN(s.vs, 2)],
-                                      (it.n # "$" /\ Captured(s.frames, it.n)) \/ AliasHit(s, it.n), "captured / aliased " \o it.n)
+                                      it.n # "$" /\ Captured(s.frames, it.n), "captured " \o it.n)
          ELSE IF r.k = "err" THEN Fault([r.s EXCEPT !.vs = DropN(s.vs, 2)], rest)
          ELSE Opened(s, "index write " \o it.n)
     [] it.t = "incidx" ->       \* n[key]++ : a missing element counts as 0 and is created
@@ -556,7 +550,7 @@ StepOp(s, it, rest) ==
                      new == IF it.op = "++" THEN old + 1 ELSE old - 1
                      w == IdxWrite(r.s, it.n, key, VNum(new))
                  IN IF w.k = "ok" THEN Mark([w.s EXCEPT !.ctl = rest, !.vs = <<VNum(IF it.post THEN old ELSE new)>> \o Tail(s.vs)],
-                                            ~InRange(new) \/ (it.n # "$" /\ Captured(s.frames, it.n)) \/ AliasHit(s, it.n), "incidx")
+                                            ~InRange(new) \/ (it.n # "$" /\ Captured(s.frames, it.n)), "incidx")
                     ELSE IF w.k = "err" THEN Fault([w.s EXCEPT !.vs = Tail(s.vs)], rest)
                     ELSE Opened(s, "index write " \o it.n)
     [] it.t = "mcall" -> MethodCall(s, it, rest)
